@@ -152,6 +152,34 @@ Theorem C14_lv_pack_is_source : forall args clock,
 Proof. exact Src_refine.lv_pack_refines. Qed.
 Print Assumptions C14_lv_pack_is_source.
 
+(* TIE BY TRANSLATION: util.lv_unpack as it reads in /repo/src NOW (coq/Gen/Src_lv.v, regenerated by harness/py2v.py on
+   every run: the `while txt:` loop as recursion on explicit fuel, `l, v = txt.split(":", 1)`, int(l), v[:n], v[n:])
+   (session identifiers are lv_unpack'ed on every look-up).
+   For every text of at most 4300 characters and every fuel above its length the translated function computes the
+   model's lv_unpack - same list, same ValueError, Unmodelled exactly where the model is (a non-ASCII non-blank
+   character in a length prefix) - and the loop never runs out of fuel.  The bound is CPython's default limit on the
+   digits of an int() literal (run-time configurable, so not modelled: PyOps.py_int_of); beyond it the translation is
+   either outside that fragment or again the model (second theorem), and on everything lv_pack wrote - whatever the
+   length - it returns the packed list (third theorem; the side condition holds for every string a process can hold). *)
+From Verif Require Lib.PyOps Gen.Src_lv Proofs.Src_refine_lv.
+Theorem C14_lv_unpack_is_source : forall fuel txt clock,
+  (length txt < fuel)%nat -> (length txt <= PyOps.int_max_str_digits)%nat ->
+  Src_lv.lv_unpack_src fuel (VStr txt) clock = Src_refine_lv.inj_strs (lv_unpack txt) /\ lv_unpack txt <> Err OutOfFuel.
+Proof. exact Src_refine_lv.lv_unpack_refines. Qed.
+Print Assumptions C14_lv_unpack_is_source.
+Theorem C14_lv_unpack_is_source_any_length : forall fuel txt clock,
+  (length txt < fuel)%nat ->
+  Src_lv.lv_unpack_src fuel (VStr txt) clock = Unmodelled
+  \/ Src_lv.lv_unpack_src fuel (VStr txt) clock = Src_refine_lv.inj_strs (lv_unpack txt).
+Proof. exact Src_refine_lv.lv_unpack_refines_partial. Qed.
+Print Assumptions C14_lv_unpack_is_source_any_length.
+Theorem C14_lv_source_roundtrip : forall l fuel clock,
+  (length (lv_pack l) < fuel)%nat ->
+  List.Forall (fun a => length (str_of_nat (length a)) <= PyOps.int_max_str_digits)%nat l ->
+  Src_lv.lv_unpack_src fuel (VStr (lv_pack l)) clock = Ok (VList (List.map VStr l)) /\ lv_unpack (lv_pack l) = Ok l.
+Proof. exact Src_refine_lv.lv_unpack_src_roundtrip. Qed.
+Print Assumptions C14_lv_source_roundtrip.
+
 (* ================================================================ read-only queries and operations through identifiers
    `xrun G rv xs d` runs an extended history: the mutating operations above, revoke_sub_tree / remove_session through a
    session or branch identifier, and the queries (sm[sid], get, get_node_info, get_grant, get_client_session_info,
@@ -232,3 +260,87 @@ Example C14_query_nonvacuous :
   /\ List.map fst (xrun bool (fun _ => true) (demo_xops ++ [XRemoveId (ById demo_sid)])%list [])
      = [PS "diana"; PS "diana;;client_1"; PS "diana;;client_1;;g2"].
 Proof. vm_compute. repeat split; reflexivity. Qed.
+
+(* --- round 11 --- *)
+(* ================================================================ the creation API and look-alike identifiers
+   create_session / create_grant / create_exchange_session / create_exchange_grant (through SessionManager.make_path) and
+   add_grant / add_exchange_grant (explicit path) are operations of the model (Model/DbCreate.v: cop / cstep / crun).
+   make_path is the identity on identifiers: an identifier is an opaque string, and two identifiers that are DIFFERENT
+   strings - differing only in white space at either end, letter case, Unicode normal form, a trailing NUL - are
+   different users / clients.  The driver runs these operations on pools of such strings. *)
+From Verif Require Import Model.DbCheck Model.DbCreate Proofs.DbCreate_proofs.
+
+Theorem C14_make_path_is_verbatim : forall u c, make_path u c = [u; c].
+Proof. exact make_path_verbatim. Qed.
+Print Assumptions C14_make_path_is_verbatim.
+Theorem C14_entry_points_take_identifiers_verbatim : forall e u c, entry_path e u c = [u; c].
+Proof. exact entry_path_verbatim. Qed.
+Print Assumptions C14_entry_points_take_identifiers_verbatim.
+
+(* a creation through any entry point is add_grant on exactly the identifiers given, so a history over the creation API
+   is a history of Model/Db.v and every statement above about `run` / `xrun` holds for it *)
+Theorem C14_creation_is_add_grant : forall G rv d c, cstep G rv d c = xstep G rv d (cdenote G c).
+Proof. exact cstep_denote. Qed.
+Print Assumptions C14_creation_is_add_grant.
+Theorem C14_creation_history : forall G rv cs d, crun G rv cs d = xrun G rv (List.map (cdenote G) cs) d.
+Proof. exact crun_xrun. Qed.
+Print Assumptions C14_creation_history.
+
+(* the session id handed out by a creation resolves to the grant stored under exactly (user, client, grant) *)
+Theorem C14_created_sid_resolves : forall G rv d e u c gid g d1 a rnd t,
+  cstep G rv d (CCreate e u c gid g) = (d1, Ok a) -> sid_plain rnd [u; c; gid] = Ok t ->
+  exists k, branch_key [u; c; gid] = Ok k /\ unpack_branch_key k = [u; c; gid] /\ resolve G t d1 = Ok (k, NGrant g).
+Proof. exact create_resolves. Qed.
+Print Assumptions C14_created_sid_resolves.
+
+(* a creation changes the three nodes of its own path and nothing else ... *)
+Theorem C14_creation_touches_own_path : forall G rv d e u c gid g k,
+  (forall a b key, [u; c; gid] = (a ++ b)%list -> a <> [] -> branch_key a = Ok key -> k <> key) ->
+  assoc k (fst (cstep G rv d (CCreate e u c gid g))) = assoc k d.
+Proof. exact create_touches_own_path. Qed.
+Print Assumptions C14_creation_touches_own_path.
+(* ... in particular nothing at or below the client node of any OTHER (user, client) pair, however alike the strings *)
+Theorem C14_creation_leaves_other_pairs : forall G rv d e u c gid g u' c' q k,
+  (u, c) <> (u', c') -> branch_key (u' :: c' :: q) = Ok k ->
+  assoc k (fst (cstep G rv d (CCreate e u c gid g))) = assoc k d.
+Proof. exact create_other_pair_unchanged. Qed.
+Print Assumptions C14_creation_leaves_other_pairs.
+
+(* different (user, client) pairs and different users have disjoint subtrees (extb a k: k lies in the subtree of a) *)
+Theorem C14_different_pairs_disjoint : forall u c u' c' q ck k,
+  (u, c) <> (u', c') -> branch_key [u; c] = Ok ck -> branch_key (u' :: c' :: q) = Ok k -> extb ck k = false.
+Proof. exact pair_not_below. Qed.
+Print Assumptions C14_different_pairs_disjoint.
+Theorem C14_different_users_disjoint : forall u u' q uk k,
+  u <> u' -> branch_key [u] = Ok uk -> branch_key (u' :: q) = Ok k -> extb uk k = false.
+Proof. exact user_not_below. Qed.
+Print Assumptions C14_different_users_disjoint.
+
+(* revoke_client_session through the session id issued for (u, c, gid), after any history over the creation API, leaves
+   every node at or below the client node of every other pair as it was *)
+Theorem C14_revoke_client_session_leaves_other_pairs : forall G rv cs rnd u c gid t u' c' q k,
+  sid_plain rnd [u; c; gid] = Ok t -> (u, c) <> (u', c') -> branch_key (u' :: c' :: q) = Ok k ->
+  assoc k (fst (cstep G rv (crun G rv cs []) (CRevokeClientSession (ById t)))) = assoc k (crun G rv cs []).
+Proof. exact reach_revoke_client_session_other_pair. Qed.
+Print Assumptions C14_revoke_client_session_leaves_other_pairs.
+
+(* non-vacuity: "alice" and "alice " at the clients "rp" and " rp" are four pairs with four branches; revoking the client
+   session of ("alice ", "rp") revokes that pair's grant only *)
+Definition demo_cops : list (cop bool) :=
+  [ CCreate ECreateSession (PS "alice") (PS "rp") (PS "g1") false; CCreate ECreateGrant (PS "alice ") (PS "rp") (PS "g2") false;
+    CCreate ECreateExchangeSession (PS "alice") (PS " rp") (PS "g3") false; CCreate EAddGrant (PS "alice ") (PS " rp") (PS "g4") false;
+    CRevokeClientSession (ById (lv_pack [PS "rnd"; PS "alice ;;rp;;g2"; PS ""])) ].
+Example C14_lookalike_identifiers_apart :
+  List.map (fun kn => (fst kn, match snd kn with NGrant g => g | NInfo _ _ r _ => r end)) (crun bool (fun _ => true) demo_cops [])
+  = [(PS "alice", false); (PS "alice;;rp", false); (PS "alice;;rp;;g1", false);
+     (PS "alice ", false); (PS "alice ;;rp", true); (PS "alice ;;rp;;g2", true);
+     (PS "alice;; rp", false); (PS "alice;; rp;;g3", false); (PS "alice ;; rp", false); (PS "alice ;; rp;;g4", false)].
+Proof. vm_compute. reflexivity. Qed.
+(* refutation witness: a creation path that strips blanks (create_via strip_blanks is NOT the model) folds the four pairs
+   into one branch - the model above and such an implementation differ on the first look-alike identifier *)
+Example C14_normalising_creation_refuted :
+  List.map fst (fst (create_via bool strip_blanks (PS "alice ") (PS " rp") (PS "g2") false
+                     (fst (create_via bool strip_blanks (PS "alice") (PS "rp") (PS "g1") false []))))
+  = [PS "alice"; PS "alice;;rp"; PS "alice;;rp;;g1"; PS "alice;;rp;;g2"].
+Proof. vm_compute. reflexivity. Qed.
+(* --- end round 11 --- *)
